@@ -96,4 +96,48 @@ def replay_layout(job):
     return {"violated": bool(r and not r.get("ok")), "detail": (r or {}).get("detail", "")}
 
 
+def _row_map_case(tile_size, nrows, tiles):
+    """tiles: [(tileid, [(tile_row_index, cell_count), ...]), ...] -> violation detail or None; the real row_storage_map on a minimal object store"""
+    from types import SimpleNamespace as NS
+    from numbers_parser.model import _NumbersModel
+    fn = _NumbersModel.row_storage_map
+    fn = getattr(fn, "__wrapped__", fn)
+    objects = {1: NS(number_of_rows=nrows, base_data_store=NS(tiles=NS(tile_size=tile_size, tiles=[
+        NS(tileid=tid, tile=NS(identifier=100 + i)) for i, (tid, _) in enumerate(tiles)])))}
+    for i, (_, recs) in enumerate(tiles):
+        objects[100 + i] = NS(rowInfos=[NS(tile_row_index=tri, cell_count=cc) for tri, cc in recs])
+    got = fn(NS(objects=objects), 1)
+    want, k = {i: None for i in range(nrows)}, 0
+    for tid, recs in tiles:
+        for tri, _ in recs:
+            want[tid * (tile_size or 256) + tri] = k
+            k += 1
+    if dict(got) != want:
+        bad = sorted(r for r in set(want) | set(got) if want.get(r, "absent") != got.get(r, "absent"))[:3]
+        return (f"tile size {tile_size}, {nrows} rows, tiles {tiles}: row(s) {bad} are mapped to buffer position(s) {[got.get(r, 'absent') for r in bad]}, "
+                f"their records are at position(s) {[want.get(r, 'absent') for r in bad]}")
+    return None
+
+
+def search_row_map(job):
+    """small tile layouts, with records that hold no cells, tiles out of order and short tiles"""
+    cases = []
+    for ts in (0, 256, 4):
+        e = ts or 256
+        cases += [(ts, 3, [(0, [(0, 2), (1, 2), (2, 2)])]), (ts, 3, [(0, [(0, 2), (1, 0), (2, 2)])]), (ts, 4, [(0, [(0, 0), (1, 1), (3, 1)])]),
+                  (ts, e + 2, [(0, [(i, 1) for i in range(e)]), (1, [(0, 1), (1, 1)])]), (ts, e + 2, [(1, [(0, 1), (1, 0)]), (0, [(0, 0), (2, 3)])]),
+                  (ts, 2 * e + 1, [(0, [(0, 1)]), (2, [(0, 1)]), (1, [(e - 1, 0), (0, 5)])]), (ts, 2, [(0, [(1, 1), (0, 1)])]), (ts, 1, [])]
+    for c in cases:
+        d = _row_map_case(*c)
+        if d:
+            return {"violated": True, "detail": d, "job": {"custom": "replay_row_map", "case": [c[0], c[1], [[t, [list(r) for r in recs]] for t, recs in c[2]]]}}
+    return {"violated": False}
+
+
+def replay_row_map(job):
+    ts, nrows, tiles = job["case"]
+    d = _row_map_case(ts, nrows, [(t, [tuple(r) for r in recs]) for t, recs in tiles])
+    return {"violated": bool(d), "detail": d or ""}
+
+
 NATIVE = {}
